@@ -1259,6 +1259,13 @@ wav_write_header (SF_PRIVATE *psf, int calc_length)
 		} ;
 
     psf_binheader_writef (psf, "tm8", BHWm (data_MARKER), BHW8 (SF_MIN(psf->datalength, UINT32_MAX))) ;
+
+	/* With no audio in the file the header is all there is : the RIFF size above must cover this header, not the previous one. */
+	if (calc_length && ! has_data && psf->filelength < psf->header.indx)
+	{	psf->filelength = psf->header.indx ;
+		return wav_write_header (psf, SF_FALSE) ;
+		} ;
+
 	psf_fwrite (psf->header.ptr, psf->header.indx, 1, psf) ;
 	if (psf->error)
 		return psf->error ;
